@@ -3,6 +3,7 @@ C10 — Reassembler buffers at most maxInFlight events and evicts only for cause
 -/
 import LA.Proofs.ReasmLife
 import LA.Gen.ReasmFacts
+import LA.Proofs.StateFacts
 
 namespace LA.Reasm
 
@@ -181,3 +182,9 @@ example : (run (init 2 3600) [.push ⟨1, 5, 1300⟩ 0 0, .push ⟨2, 6, 1300⟩
   decide
 
 end LA.Reasm
+
+/-! ### the code keeps nothing between calls that the model does not have -/
+
+/-- Outside `init`, no function of the root package writes a package-level variable, takes the address of one or calls a
+sync/atomic method on one (regenerated list, see LA.Proofs.StateFacts): all state is in the object the model is given. -/
+theorem C10_state_is_in_the_object : LA.StateFacts.ofPkg "" = [] := by decide
